@@ -318,7 +318,7 @@ def evaluate(prop, t, tp, d, o, ns, mo):
             # (alternatives of a union may each report the same message at the same place)
             if not ({"union", "optional"} & t.features()) and len(set(locs)) != len(locs): fails.append("violation-reported-twice")
     elif prop == "C03":
-        info["in_scope"] = bool(sc.get("acc") and sc.get("nouq") and sc.get("json") and not o["coerce"])
+        info["in_scope"] = bool(sc.get("acc") and sc.get("nouq") and sc.get("jsonx", sc.get("json")) and not o["coerce"])
         if ik == "crash": fails.append("crash:" + im["crash"])
         elif ik == "invalid" and im["invalid"] is None: fails.append("errors-not-computable:" + im.get("errors_crash", ""))
         before = snapshot(keep["data"]) if False else None
